@@ -15,12 +15,12 @@ func init() {
 		Meta: propMeta{Level: "other", Assumptions: commonAssumptions,
 			Explanation: "Decides on every CFG path: C12.accept (core.fastForward mutates core/hashgraph state only after CheckBlock returned nil and the frame hash equals the block's frame hash; the peer set hashed against the block's PeersHash derives from frame.Peers), " +
 				"C12.check (CheckBlock returns nil only under peer-set-hash equality and count > TrustCount; the counter is incremented only for members whose signature verifies against this block), " +
-				"C12.distinct (one signer, one vote: the counter iterates the trusted set or is guarded by a seen-set keyed by the canonical identity), C12.digest (the two digests the acceptance test compares bind the WHOLE frame and the WHOLE block body: Frame.Hash / BlockBody.Hash are SHA256 of Marshal() of the receiver itself, Marshal encodes the receiver, no exported field is hidden by a struct tag — a section left out of the frame hash, e.g. PeerSets, could be rewritten by the responder), C12.app (the application is restored only after core.fastForward accepted). " +
+				"C12.distinct (one signer, one vote: the counter iterates the trusted set or is guarded by a seen-set keyed by the canonical identity), C12.trust (sufficiently signed means count > TrustCount(): for every n, more than TrustCount(n) signatures is more than n/3 — the closed form of TrustCount is proved for all n by the quasi-affine evaluator; shared with C19.trust), C12.digest (the two digests the acceptance test compares bind the WHOLE frame and the WHOLE block body: Frame.Hash / BlockBody.Hash are SHA256 of Marshal() of the receiver itself, Marshal encodes the receiver, no exported field is hidden by a struct tag — a section left out of the frame hash, e.g. PeerSets, could be rewritten by the responder), C12.app (the application is restored only after core.fastForward accepted). " +
 				"NOT decided: that every single-field tampering is refused as a statement over values (collision resistance of SHA-256 plus the two equalities)."},
 		Rules: []ruleFunc{c12accept, c12check, c12app, func(p *Prog, r *Report) {
 			r.Rule("C12.verify", 1, "Block.Verify returns true only through keys.Verify over Body.Hash() with the signer's key and this signature")
 			verifyProvenance(p, r, "C12.verify", []string{"Block"})
-		}, func(p *Prog, r *Report) { digestRule(p, r, "C12.digest", []string{"Frame", "BlockBody"}) }},
+		}, func(p *Prog, r *Report) { digestRule(p, r, "C12.digest", []string{"Frame", "BlockBody"}) }, func(p *Prog, r *Report) { trustRule(p, r, "C12.trust") }},
 	})
 	register(&propDef{
 		ID: "C14", NeedCG: true,
